@@ -199,3 +199,75 @@ Print Assumptions C03_sin_rf_linearisation_partial.
 
 Example C03_phase_example : 1/1024 <= 2 * 314159 / 100000 / 60 <= 1/2.
 Proof. split; lra. Qed.
+
+(** *** 7. (family scaling) what main() hands to the RF maps and the drift map, over the definitions GENERATED from
+    main() on every run (Gen/Gen_Scaling.v, translate/scaling2coq.py: symbolic execution of main()'s set-up code;
+    [gen_angle] is the expression that reaches the `angle` parameter of the linear RFKickMap / DynamicRFKickMap
+    constructors, [gen_slip] the three expressions of DriftMap's `slip` argument, [gen_steps] the denominator of
+    the angle, all inlined down to the options [L O_<getter>] and constants).  For every field, every
+    interpretation [O] of comparisons/sqrt/..., every option values [L]. *)
+From Inovesa Require Model.ScalingOps Gen.Gen_Scaling Proofs.ScalingP.
+Module ScalingFamily.   (* imports and scopes stay local to this block *)
+Import ScalingOps Gen_Scaling ScalingP.
+Local Open Scope F_scope.
+
+(** the angle per step times the number of steps per synchrotron period is 2 pi (the orbit closes: section 6) *)
+Theorem C03_main_angle_times_steps :
+  forall (K : Fld) (O : Ops K) (L : leaf -> K) (B : bleaf -> bool),
+    gen_steps K O L B <> 0 -> gen_angle K O L B * gen_steps K O L B = L C_two_pi.
+Proof. exact angle_times_steps. Qed.
+Print Assumptions C03_main_angle_times_steps.
+
+(** ... where that number is the option StepsPerTs (when StepsPerRevolution is not positive and StepsPerTs >= 1):
+    angle = 2 pi / StepsPerTs, the statement of the property in terms of the configuration *)
+Theorem C03_main_angle_is_two_pi_over_StepsPerTs :
+  forall (K : Fld) (O : Ops K) (L : leaf -> K) (B : bleaf -> bool),
+    o_lt O 0 (L O_getStepsPerTrev) = false -> o_lt O (L O_getStepsPerTsync) 1 = false ->
+    L O_getStepsPerTsync <> 0 ->
+    gen_angle K O L B = L C_two_pi / L O_getStepsPerTsync /\
+    gen_angle K O L B * L O_getStepsPerTsync = L C_two_pi.
+Proof. exact angle_is_two_pi_over_StepsPerTs. Qed.
+Print Assumptions C03_main_angle_is_two_pi_over_StepsPerTs.
+
+(** with StepsPerRevolution > 0: steps per turn times turns per synchrotron period *)
+Theorem C03_main_steps_from_StepsPerRevolution :
+  forall (K : Fld) (O : Ops K) (L : leaf -> K) (B : bleaf -> bool),
+    o_lt O 0 (L O_getStepsPerTrev) = true -> gen_fs K O L B <> 0 ->
+    gen_steps K O L B = L O_getStepsPerTrev * gen_f_rev K O L B / gen_fs K O L B.
+Proof. exact steps_from_StepsPerTrev. Qed.
+Print Assumptions C03_main_steps_from_StepsPerRevolution.
+
+(** the drift map receives the same angle as its first slip factor, and for alpha1 = alpha2 = 0 the slip vector is
+    [angle; 0; 0]: the parameters of [drift_off] in C03_drift_offsets_linear (section 2) are the generated ones *)
+Theorem C03_main_slip :
+  forall (K : Fld) (O : Ops K) (L : leaf -> K) (B : bleaf -> bool),
+    nth 0 (gen_slip K O L B) 0 = gen_angle K O L B /\ length (gen_slip K O L B) = 3%nat /\
+    (L O_getAlpha1 = 0 -> L O_getAlpha2 = 0 -> gen_slip K O L B = [gen_angle K O L B; 0; 0]) /\
+    (o_is0 O (L O_getSyncFreq) = true -> L O_getAlpha0 <> 0 ->
+     gen_slip K O L B = [gen_angle K O L B; L O_getAlpha1 / L O_getAlpha0 * gen_angle K O L B;
+                         L O_getAlpha2 / L O_getAlpha0 * gen_angle K O L B]).
+Proof. exact main_slip. Qed.
+Print Assumptions C03_main_slip.
+
+Theorem C03_main_drift_is_linear :
+  forall (K : Fld) (O : Ops K) (L : leaf -> K) (B : bleaf -> bool) (scale1 e0 : K) (n : Z) (mn mx : K) (y : Z),
+    L O_getAlpha1 = 0 -> L O_getAlpha2 = 0 -> mn <> mx -> fz (K:=K) (n - 1) <> 0 -> e0 <> 0 ->
+    drift_off (gen_slip K O L B) scale1 e0 (ruler_delta n mn mx) (ruler_at mn (ruler_delta n mn mx) y) =
+    gen_angle K O L B * (fz y - ruler_zerobin n mn mx).
+Proof. exact main_drift_is_linear. Qed.
+Print Assumptions C03_main_drift_is_linear.
+
+(** one step advances the phase by 2 pi dt / t_sync (dt, t_sync: what the wake field and the results file receive) *)
+Theorem C03_main_angle_dt_t_sync :
+  forall (K : Fld) (O : Ops K) (L : leaf -> K) (B : bleaf -> bool),
+    gen_fs K O L B <> 0 -> gen_steps K O L B <> 0 ->
+    gen_angle K O L B * gen_t_sync K O L B = L C_two_pi * gen_dt K O L B.
+Proof. exact angle_dt_t_sync. Qed.
+Print Assumptions C03_main_angle_dt_t_sync.
+
+(** non-vacuity over Qc: StepsPerTs = 50, two_pi := 44/7 -> angle = 22/175; every other option 1 *)
+Example C03_main_angle_example :
+  let L := fun l => match l with O_getStepsPerTsync => Q2Qc 50 | C_two_pi => Q2Qc (44 # 7) | O_getStepsPerTrev => 0%Qc | _ => 1%Qc end in
+  this (gen_angle QcF QcOps L (fun _ => false)) = (22 # 175)%Q /\ this (gen_steps QcF QcOps L (fun _ => false)) = (50 # 1)%Q.
+Proof. vm_compute. split; reflexivity. Qed.
+End ScalingFamily.
